@@ -4,9 +4,12 @@ Reply format: `<model>\t<spec>`; spec patterns: `*` anything, `a|b` alternatives
 
 The spec column is computed from the properties' own wording, not from the handler code:
 * reads (C17): "blocked if a lock with start ts ≤ t is present, otherwise the value of the newest
-  committed put/delete with commit ts ≤ t" evaluated over the three column families (`specGet`,
-  `specScan` below share no code with `getK`/`scanLoop`);
+  committed put/delete with commit ts ≤ t" evaluated over the *logical* content of the three column
+  families — the most recent write of every internal key, wherever rotation / flush / compaction
+  have put it (`St.logical`; `specGet`, `specScan` below share no code with `getK`/`scanLoop`);
 * C18: a commit or a prewrite naming a key that carries a rollback record of that transaction must fail;
+  an exact duplicate of an earlier `pw` line that finds the transaction's own lock on a key leaves
+  that lock exactly as it was (read back by `lock`);
   `inv` counts committed records of one key with overlapping [start, commit] (must be 0);
 * maintenance ops (`rotate`, `flush`, `compact l0move|keep|drain`) move the physical records
   (`Perc/Phys.lean` over `Lsm/Model.lean`); the spec does not look at them: what a key reports is
@@ -37,15 +40,30 @@ structure St where
   lc : Lsm.Cfg := Lsm.Cfg.good
   /-- the physical store: every record of the three column families in its memtable / table -/
   ls : Lsm.St := {}
+  /-- the same writes, never moved: everything stays in one memtable, so that `view` over it is the
+  logical content of the three column families (the most recent write of every internal key) -/
+  lg : Lsm.St := {}
   keys : List Bytes := []          -- ascending, distinct: every key a request has named
   ghost : List (Bytes × Ghost) := []
   /-- keys on which a request outside the properties' domain was sent (a commit / resolve-commit
   whose commit ts is not above its start ts, `Req.WF` of the theorems): from then on the three
   properties claim nothing about these keys, the spec column answers `*` for them. -/
   outside : List Bytes := []
+  /-- C18, re-sent requests: the `pw` lines seen so far, and for the keys of an exact duplicate that
+  found the transaction's own lock in place, the lock as it was (a duplicate changes nothing) -/
+  seenPw : List String := []
+  keepLock : List (Bytes × String) := []
 
 /-- the per-key state the handlers see: read back through the code's read paths -/
 def St.s (st : St) : Store := view st.lc st.ls
+
+/-- the logical per-key state (specification side of the reads): what was written, wherever it sits -/
+def St.logical (st : St) : Store := view Lsm.Cfg.good st.lg
+
+/-- install the physical store after a request and replay the entries it wrote on the logical one -/
+def St.withLs (st : St) (ls' : Lsm.St) : St :=
+  let written := ls'.mem.filter (fun e => !st.ls.mem.contains e)
+  { st with ls := ls', lg := written.foldr (fun e acc => putMem acc e) st.lg }
 
 def insKey (k : Bytes) : List Bytes → List Bytes
   | [] => [k]
@@ -215,6 +233,7 @@ def setCfg (st : St) (kv : String) : Option St :=
     | "ttl.op" => o fun x => { st.c with ttlOp := x }
     | "ttl.overflowGuard" => b fun x => { st.c with ttlOverflowGuard := x }
     | "commit.minCommitOp" => o fun x => { st.c with minCommitOp := x }
+    | "prewrite.keepsOwnLock" => b fun x => { st.c with prewriteKeepsOwnLock := x }
     | _ => none
   | _ => none
 
@@ -278,8 +297,20 @@ def step (st : St) (toks : List String) : St × String :=
       -- C18: a key of this request carries a rollback record of this transaction ⇒ it must not be locked again
       let rolledBack := ms.any fun m => m.key ≠ [] && m.op ≠ .other && !isOutside st m.key &&
         (st.s m.key).writes.any fun w => w.start = start && w.kind == .rollback
+      let line := " ".intercalate toks
+      let dup := st.seenPw.contains line
+      -- C18: an exact duplicate of an earlier prewrite leaves the transaction's own lock as it is
+      let keep := ms.filterMap fun m =>
+        if dup && m.key ≠ [] && m.op ≠ .other && !isOutside st m.key then
+          match (st.s m.key).lock with
+          | some l => if l.ts = start then some (m.key, s!"lock({lockFields l})") else none
+          | none => none
+        else none
+      let touched := ms.map (·.key)
+      let st := { st with seenPw := line :: st.seenPw,
+                          keepLock := keep ++ st.keepLock.filter (fun (p : Bytes × String) => !touched.contains p.1) }
       let r := prewritePhys st.c st.lc h st.ls ms
-      let st := addKeys { st with ls := r.1 } (ms.map (·.key))
+      let st := addKeys (st.withLs r.1) (ms.map (·.key))
       let st := ghostAfterPrewrite st h ms r.2
       let out := if r.2.isEmpty then "ok" else "err:" ++ ";".intercalate (r.2.map errStr)
       (st, out ++ "\t" ++ (if wants st "C18" && rolledBack then "err:*" else "*"))
@@ -296,8 +327,9 @@ def step (st : St) (toks : List String) : St × String :=
         | _ => false
       let malformed := decide (ct ≤ start)
       let st := markOutside st start ct ks
+      let st := { st with keepLock := st.keepLock.filter (fun (p : Bytes × String) => !ks.contains p.1) }
       let r := commit st.c start ct st.s ks
-      let st := addKeys { st with ls := applyPhys st.c st.lc st.ls r.1 ks } ks
+      let st := addKeys (st.withLs (applyPhys st.c st.lc st.ls r.1 ks)) ks
       let st := ghostAfterEnd st start ks r.2.isNone true
       let spec := if !malformed && ((wants st "C18" && rolledBack) || (wants st "C19" && belowMin)) then "err:*" else "*"
       (st, optErrStr r.2 ++ "\t" ++ spec)
@@ -305,8 +337,9 @@ def step (st : St) (toks : List String) : St × String :=
   | ["rb", start, keys] =>
     match natOf? start, parseKeys? keys with
     | some start, some ks =>
+      let st := { st with keepLock := st.keepLock.filter (fun (p : Bytes × String) => !ks.contains p.1) }
       let r := batchRollback st.c start st.s ks
-      let st := addKeys { st with ls := applyPhys st.c st.lc st.ls r.1 ks } ks
+      let st := addKeys (st.withLs (applyPhys st.c st.lc st.ls r.1 ks)) ks
       let st := ghostAfterEnd st start ks r.2.isNone false
       (st, optErrStr r.2 ++ "\t*")
     | _, _ => (st, "bad-op")
@@ -314,8 +347,9 @@ def step (st : St) (toks : List String) : St × String :=
     match natOf? start, natOf? ct, parseKeys? keys with
     | some start, some ct, some ks =>
       let st := if ct = 0 then st else markOutside st start ct ks
+      let st := { st with keepLock := st.keepLock.filter (fun (p : Bytes × String) => !ks.contains p.1) }
       let r := resolveLock st.c start ct st.s ks 0
-      let st := addKeys { st with ls := applyPhys st.c st.lc st.ls r.1 ks } ks
+      let st := addKeys (st.withLs (applyPhys st.c st.lc st.ls r.1 ks)) ks
       let st := ghostAfterEnd st start ks r.2.2.isNone false
       (st, optErrStr r.2.2 ++ s!":n={r.2.1}" ++ "\t*")
     | _, _, _ => (st, "bad-op")
@@ -324,8 +358,9 @@ def step (st : St) (toks : List String) : St × String :=
     | some primary, some lockTs, some cur, some rbne, some caller =>
       let q : CsReq := ⟨primary, lockTs, cur, rbne ≠ 0, caller⟩
       let g := ghostOf st primary
+      let st := { st with keepLock := st.keepLock.filter (fun (p : Bytes × String) => p.1 ≠ primary) }
       let r := checkTxnStatus st.c q st.s
-      let st := addKeys { st with ls := applyPhys st.c st.lc st.ls r.1 [primary] } [primary]
+      let st := addKeys (st.withLs (applyPhys st.c st.lc st.ls r.1 [primary])) [primary]
       let resp := r.2
       let out := s!"cs:{match resp.err with | some e => errStr e | none => "-"}:{resp.ttl}:{resp.commitVersion}:{resp.action}"
       -- C19: the transaction may be rolled back only when ttl ≠ 0 and current ≥ start + ttl (no wrap)
@@ -348,7 +383,7 @@ def step (st : St) (toks : List String) : St × String :=
     match bytesOf? key, natOf? ts with
     | some k, some t =>
       if k = [] then (st, "apply-error\t*") else
-      let spec := if wants st "C17" && !isOutside st k then readStr k (specGet (st.s k) t) else "*"
+      let spec := if wants st "C17" && !isOutside st k then readStr k (specGet (st.logical k) t) else "*"
       (st, readStr k (get st.c st.s k t) ++ "\t" ++ spec)
     | _, _ => (st, "bad-op")
   | ["scan", startKey, incl, limit, ver] =>
@@ -358,7 +393,7 @@ def step (st : St) (toks : List String) : St × String :=
       let tainted := st.keys.any fun k => isOutside st k &&
         (sk == [] || Bytes.lt sk k || (incl ≠ 0 && k == sk))
       let spec := if wants st "C17" && !tainted then
-          scanStr (specScan st.s sk (incl ≠ 0) (if ver = 0 then two64 - 1 else ver) (if limit = 0 then 1 else limit) st.keys)
+          scanStr (specScan st.logical sk (incl ≠ 0) (if ver = 0 then two64 - 1 else ver) (if limit = 0 then 1 else limit) st.keys)
         else "*"
       (st, scanStr r ++ "\t" ++ spec)
     | _, _, _, _ => (st, "bad-op")
@@ -368,10 +403,13 @@ def step (st : St) (toks : List String) : St × String :=
       let out := match (st.s k).lock with
         | some l => s!"lock({lockFields l})"
         | none => "none"
-      let spec := if !wants st "C19" || isOutside st k then "*" else match ghostOf st k with
+      let spec19 := if !wants st "C19" || isOutside st k then "*" else match ghostOf st k with
         | .held s _ _ => s!"lock({s},*"
         | .free => "none"
         | .unknown => "*"
+      let spec := match st.keepLock.find? (fun p => p.1 = k) with
+        | some p => if wants st "C18" && !isOutside st k then p.2 else spec19
+        | none => spec19
       (st, out ++ "\t" ++ spec)
     | none => (st, "bad-op")
   | ["dump"] => (st, dumpStr st ++ "\t*")
